@@ -4,6 +4,7 @@ import (
 	"fmt"
 	"go/constant"
 	"go/token"
+	"os"
 	"strings"
 
 	"golang.org/x/tools/go/ssa"
@@ -190,17 +191,23 @@ func checkC07(c *Ctx) {
 	if rd := c.Fn("G5.layout", "efi/signature.ReadSignatureData"); rd != nil {
 		c.layoutRule("G5.layout", rd, true, nil, []layoutField{{"Owner.Data1", 4}, {"Owner.Data2", 2}, {"Owner.Data3", 2}, {"Owner.Data4", 8}, {"Data", -1}}, "EFI_SIGNATURE_DATA")
 		// the data length is SignatureSize - 16 with SignatureSize the list's Size field
-		tbl := c.codecTable(rd, true)
+		ls, whyL := c.wireLeaves(rd, true)
 		ok, det := false, "no variable-length data entry"
-		for _, e := range tbl {
-			if e.lenAff != nil {
-				want := symAffine("param:size", nil)
-				want.K = -16
-				if e.lenAff.equal(want) {
-					ok = true
-				} else {
-					det = "data length is " + e.lenOf + ", want size-16"
-				}
+		undecidedTail := whyL != ""
+		for _, l := range ls {
+			if l.width >= 0 {
+				continue
+			}
+			if l.src == nil || l.src.lenAff == nil {
+				undecidedTail = true
+				continue
+			}
+			want := symAffine("param:size", nil)
+			want.K = -16
+			if l.src.lenAff.equal(want) {
+				ok = true
+			} else {
+				det = "data length is " + l.src.lenAff.String() + ", want size-16"
 			}
 		}
 		// and the size argument is the list's Size field at the call sites
@@ -223,7 +230,11 @@ func checkC07(c *Ctx) {
 				}
 			}
 		}
-		c.R.Check(ok, "G1.tail", name(rd), "Data.len", c.Pos(rd.Pos()), "signature data is SignatureSize-16 bytes", det)
+		if !ok && undecidedTail {
+			c.R.Infof("G1.tail", name(rd), "Data.len", c.Pos(rd.Pos()), "not decided for this shape: the length of the signature data cannot be evaluated")
+		} else {
+			c.R.Check(ok, "G1.tail", name(rd), "Data.len", c.Pos(rd.Pos()), "signature data is SignatureSize-16 bytes", det)
+		}
 	}
 	// every list / entry is written and every decoded list is kept
 	c.everyIteration("G8.all", c.Fn("G8.all", "efi/signature.WriteSignatureDatabase"), sigPkg+".WriteSignatureList", "the database encoder writes every list, in order")
@@ -860,10 +871,10 @@ func normaliseUEFIBody(ls []leaf, isWriter bool) []leaf {
 		}
 		last := lastComponent(l.id)
 		isHdrBody := strings.HasSuffix(l.id, ".WINCertificate.Certificate") || last == "Certificate"
-		isGUID := strings.Contains(l.id, ".CertType.Data") && l.width > 0 && (last == "Data1" || last == "Data2" || last == "Data3" || last == "Data4")
+		isGUID := (strings.Contains(l.id, ".CertType.Data") || strings.Contains(l.id, "EFIGUID.Data")) && l.width > 0 && (last == "Data1" || last == "Data2" || last == "Data3" || last == "Data4")
 		isData := last == "CertData"
 		if isHdrBody || isWriter && (isGUID || isData) {
-			if isGUID && l.order != "LE" {
+			if isGUID && l.order != "LE" && !(last == "Data4" && l.order == "-") {
 				out = append(out, l) // a wrong byte order must stay visible
 				continue
 			}
@@ -883,15 +894,19 @@ func normaliseUEFIBody(ls []leaf, isWriter bool) []leaf {
 // tables and the packing idiom when they model the whole function, otherwise
 // from the deep wire extraction; why != "" if neither can describe it.
 func (c *Ctx) wireLeaves(fn *ssa.Function, isRead bool) ([]leaf, string) {
+	if os.Getenv("VCHECK_WIRE") != "table" {
+		if ls, ok, _ := c.deepLeaves(fn, isRead); ok {
+			return ls, ""
+		}
+	}
 	opaque := c.codecOpaque(fn, 0)
 	if opaque == "" {
 		if ls := c.leavesOf(fn, isRead, 0); len(ls) > 0 {
 			return ls, ""
 		}
 	}
-	if ls, ok, why := c.deepLeaves(fn, isRead); ok {
-		return ls, ""
-	} else if opaque == "" {
+	_, _, why := c.deepLeaves(fn, isRead)
+	if opaque == "" {
 		opaque = why
 	} else {
 		opaque += "; deep extraction: " + why
